@@ -19,6 +19,15 @@ var (
 	ErrInjectedUnexpEOF = fmt.Errorf("gosim: injected failure: %w", io.ErrUnexpectedEOF)
 )
 
+// timeoutErr looks like a net.Error: a custom pointer type with Timeout/Temporary methods.
+type timeoutErr struct{ op string }
+
+func (e *timeoutErr) Error() string   { return "gosim: injected " + e.op + " timeout" }
+func (e *timeoutErr) Timeout() bool   { return true }
+func (e *timeoutErr) Temporary() bool { return true }
+
+var ErrInjectedTimeout error = &timeoutErr{op: "read"}
+
 // InjectedErr returns the error value a reader plan injects.
 func InjectedErr(kind string) error {
 	switch kind {
@@ -26,6 +35,8 @@ func InjectedErr(kind string) error {
 		return ErrInjectedWrapsEOF
 	case "unexpected-eof":
 		return ErrInjectedUnexpEOF
+	case "timeout":
+		return ErrInjectedTimeout
 	}
 	return ErrInjected
 }
